@@ -6,7 +6,10 @@ function under test):
  * nest   : `Fiber.fromUncompressed` / `Tensor.fromUncompressed` on a rectangular nest -> stored content ==
             the nest's non-default entries (type-strict), no explicit default leaf and no empty sub-fiber
             stored, shape == the nest's dimensions, tree well-formed; `uncompress(shape=dims)` and
-            `uncompress()` return the nest (type-strict, unboxed).
+            `uncompress()` return the nest (type-strict, unboxed).  "Default entry" = an entry that compares
+            equal to the default value, whatever its numeric type (0.0 in a nest built with default 0, 7 with
+            default 7.0, -0.0): such entries must not be stored either, and `uncompress` may give them back
+            as the entry itself or as the default value.
  * yaml   : tensor (built from a nest, then 0..2 rank transforms: split / swizzle / swap / flatten with tuple,
             pair or linear coordinates / flatten+unflatten; or a rank-0 tensor; or a tree with explicit
             defaults and empty sub-fibers) -> `dump` to a real temp file -> `Tensor.fromYAMLfile`: same rank
@@ -34,8 +37,11 @@ SPEC = {
     "rule": ("cases = (i) every rectangular nest over {default, value} for every dimension list of depth 1-4, "
              "extents 1-4 and at most 6 (quick) / 10 (thorough) entries, under defaults 0 / 7 / 0.5 / -1, "
              "built as free fiber, as tensor and as tensor with explicit shape, then uncompressed with and "
-             "without the shape argument; (ii) random nests of depth 1-4, extents 1-4 over {0,1,2,-1,0.5,3} and "
-             "defaults {0,7,-1,0.5,None}, rank-0 tensors; (iii) YAML / dict round trips through real temp files "
+             "without the shape argument; (i') the same nests (those with at least one default entry) with the "
+             "default entries written in the other numeric type than the default value (all of them / every "
+             "second one) under defaults 0 / 0.0 / 7 / -1.0 / 7.0 / -1; (ii) random nests of depth 1-4, extents 1-4 over {0,1,2,-1,0.5,3} and "
+             "defaults {0,7,-1,0.5,None,1,0.0,-1.0}, a quarter of them with default entries of the other numeric "
+             "type (int <-> float, -0.0), rank-0 tensors; (iii) YAML / dict round trips through real temp files "
              "of tensors and fibers built from nests and transformed by split/swizzle/swap/flatten(tuple, pair, "
              "linear)/unflatten, rank-0 tensors, trees holding explicit defaults and empty sub-fibers; "
              "(iv) fromRandom over shapes x scalar/per-rank densities x intervals x int/float/str seeds x defaults. "
@@ -46,16 +52,21 @@ SPEC = {
                              "uncompress_calls": 5000, "yaml_tensor_roundtrips": 300,
                              "yaml_fiber_roundtrips": 300, "dict_roundtrips": 300, "random_pairs": 500,
                              "density1_points_read": 2000, "all_default_nests": 50, "tuple_coord_trees": 50,
-                             "rank0_roundtrips": 20},
+                             "rank0_roundtrips": 20, "mixed_type_default_nests": 400,
+                             "mixed_type_default_entries": 1500, "mixed_type_all_default_nests": 20},
                    "thorough": {"evaluations": 40000, "oracle_evals": 400000, "nests_built": 50000,
                                 "uncompress_calls": 50000, "yaml_tensor_roundtrips": 5000,
                                 "yaml_fiber_roundtrips": 5000, "dict_roundtrips": 5000, "random_pairs": 5000,
                                 "density1_points_read": 20000, "all_default_nests": 200,
-                                "tuple_coord_trees": 500, "rank0_roundtrips": 200}},
+                                "tuple_coord_trees": 500, "rank0_roundtrips": 200, "mixed_type_default_nests": 4000,
+                                "mixed_type_default_entries": 15000, "mixed_type_all_default_nests": 100}},
     "assumptions": [
-        "nests are rectangular, depth 1-4, extents >= 1, entries int/float (None only as the default value); an "
-        "entry that equals the default is the default value itself (same type), so type-strict comparison of "
-        "uncompress() output is meaningful",
+        "nests are rectangular, depth 1-4, extents >= 1, entries int/float (no bool; None only as the default value); a "
+        "'default entry' / 'explicit default' is decided by value equality with the default (==), never by type: "
+        "0.0 is a default entry under default 0 and 0 under default 0.0",
+        "uncompress() output is compared type-strictly at every non-default position; at a default position the "
+        "returned element must be (type-strictly) the nest's entry or the default value - the tree does not store "
+        "these entries, so which numeric type the nest spelled its zero in cannot be demanded back",
         "YAML has no field for a non-zero default (documented TODO in Tensor.fromYAMLfile): YAML and dict round "
         "trips use default 0; payloads are finite ints/floats (no nan/inf)",
         "round-trip equality is content equality (point -> typed value, explicit defaults and empty sub-fibers "
@@ -75,6 +86,7 @@ SPEC = {
 
 VALS = [1, 2, -1, 0.5, 3]
 DEFAULTS_SYS = [0, 7, 0.5, -1]
+DEFAULTS_ALT = [0, 0.0, 7, -1.0, 7.0, -1]      # defaults that have a spelling in the other numeric type
 NAMES = ["", "A", "my tensor", "T-1", "123", "true", "null", "a: b", "x+y", "#c", "Z_9", "~"]
 YAML_VALS = [1, 2, -1, 0.5, 3, -2.5, 1e-05, 1e+20, 10 ** 12, 7]
 ID_POOLS = [["M", "K", "N", "P"], ["R3", "R2", "R1", "R0"], ["a", "b", "c", "d"], ["X0", "Y0", "W", "H"]]
@@ -104,11 +116,32 @@ def _nest_from_flat(dims, flat):
     return [_nest_from_flat(dims[1:], flat[i * step:(i + 1) * step]) for i in range(dims[0])]
 
 
-def _mask_nest(dims, mask, default, salt=0):
+def _alt_spellings(default):
+    """Values that compare equal to `default` but have the other numeric type (int <-> float)."""
+    if type(default) is int:
+        return [float(default)] + ([-0.0] if default == 0 else [])
+    if type(default) is float and default == int(default):
+        return [int(default)]
+    return []
+
+
+def _nest_case(dims, nest, default, **kw):
+    case = {"kind": "nest", "dims": dims, "nest": nest, "default": default}
+    case.update(kw)
+    # (Tensor(..., default=0.0) kept the int 0 as its leaf default until repository fix 5342642: key
+    # `uncompress:nest:default-retyped`)
+    return case
+
+
+def _mask_nest(dims, mask, default, salt=0, zrep="same"):
+    """zrep: how the default entries are spelled - "same" (the default value itself), "other" (equal value of
+    the other numeric type), "mixed" (every second default entry "other")."""
     n = 1
     for e in dims:
         n *= e
+    alts = _alt_spellings(default) if zrep != "same" else []
     flat = []
+    nz = 0
     for i in range(n):
         if mask >> i & 1:
             v = VALS[(i + salt) % len(VALS)]
@@ -116,7 +149,11 @@ def _mask_nest(dims, mask, default, salt=0):
                 v = 9
             flat.append(v)
         else:
-            flat.append(default)
+            if alts and (zrep == "other" or nz % 2 == 0):
+                flat.append(alts[0])
+            else:
+                flat.append(default)
+            nz += 1
     return _nest_from_flat(dims, flat)
 
 
@@ -130,10 +167,23 @@ def generate(rng, tier, shard, nshards, mon):
         for mask in range(1 << n):
             if idx % nshards == shard:
                 default = DEFAULTS_SYS[(idx // nshards) % len(DEFAULTS_SYS)]
-                yield {"kind": "nest", "dims": dims, "nest": _mask_nest(dims, mask, default, idx), "default": default,
-                       "sys": True}
+                yield _nest_case(dims, _mask_nest(dims, mask, default, idx), default, sys=True)
             idx += 1
     mon.exhaustive[f"nests-2state-entries<={maxprod}"] = True
+    # the same sweep with the default entries spelled in the other numeric type (needs >= 1 default entry)
+    idx = 0
+    for dims in _dims_upto(maxprod):
+        n = 1
+        for e in dims:
+            n *= e
+        for mask in range((1 << n) - 1):
+            if idx % nshards == shard:
+                k = idx // nshards
+                default = DEFAULTS_ALT[k % len(DEFAULTS_ALT)]
+                zrep = "other" if (k // len(DEFAULTS_ALT)) % 3 != 2 else "mixed"
+                yield _nest_case(dims, _mask_nest(dims, mask, default, idx, zrep), default, sys=True)
+            idx += 1
+    mon.exhaustive[f"nests-2state-other-typed-defaults-entries<={maxprod}"] = True
     # systematic YAML sweep: every 2-state nest with <= 4 entries, plain and (depth >= 2) flattened
     idx = 0
     for dims in _dims_upto(4):
@@ -172,28 +222,31 @@ def _rand_dims(rng, maxdepth=4, maxext=4, maxprod=64):
             return dims
 
 
-def _fill(rng, dims, density, default, vals):
+def _fill(rng, dims, density, default, vals, zalt=0.0):
+    """zalt: probability that a default entry is spelled in the other numeric type (0.0 for default 0, ...)."""
     if len(dims) == 1:
+        alts = _alt_spellings(default) if zalt else []
         out = []
         for _ in range(dims[0]):
-            if rng.random() < density:
-                v = rng.choice(vals)
-                out.append(default if v == default else v)
-            else:
-                out.append(default)
+            v = rng.choice(vals) if rng.random() < density else default
+            if v == default:
+                v = rng.choice(alts) if alts and rng.random() < zalt else default
+            out.append(v)
         return out
     # whole all-default rows are interesting (squeezed sub-fibers): lower the density for some rows
-    return [_fill(rng, dims[1:], density * (0.0 if rng.random() < 0.15 else 1.0), default, vals) for _ in range(dims[0])]
+    return [_fill(rng, dims[1:], density * (0.0 if rng.random() < 0.15 else 1.0), default, vals, zalt)
+            for _ in range(dims[0])]
 
 
 def _rand_nest_case(rng):
     if rng.random() < 0.02:
         return {"kind": "nest0", "value": rng.choice([0, 1, -1, 0.5, 7, 3])}
     dims = _rand_dims(rng)
-    default = rng.choice([0, 0, 0, 7, -1, 0.5, None, 1])
+    default = rng.choice([0, 0, 0, 7, -1, 0.5, None, 1, 0.0, -1.0])
     dens = rng.choice([0.0, 0.1, 0.3, 0.6, 0.9, 1.0])
     vals = [0, 1, 2, -1, 0.5, 3]
-    return {"kind": "nest", "dims": dims, "nest": _fill(rng, dims, dens, default, vals), "default": default}
+    zalt = rng.choice([0.0, 0.0, 0.0, 0.5, 1.0])
+    return _nest_case(dims, _fill(rng, dims, dens, default, vals, zalt), default)
 
 
 def _rand_transforms(rng, depth):
@@ -326,6 +379,37 @@ def _nest_typed_content(nest, default, prefix=()):
     return out
 
 
+def _alt_typed_defaults(nest, default, prefix=()):
+    """Points of the nest whose entry equals the default but is not of the default's type."""
+    out = []
+    for i, e in enumerate(nest):
+        if isinstance(e, list):
+            out += _alt_typed_defaults(e, default, prefix + (i,))
+        elif e == default and type(e) is not type(default):
+            out.append(prefix + (i,))
+    return out
+
+
+def _retyped_only(got, nest, default):
+    """True when `got` is the nest except that default entries came back value-equal but in the other numeric
+    type than both the entry and the default (e.g. int 0 for a 0.0 entry under default 0.0)."""
+    if isinstance(nest, list):
+        return type(got) is list and len(got) == len(nest) and all(_retyped_only(g, e, default) for g, e in zip(got, nest))
+    if nest != default:
+        return _same(got, nest)
+    return type(got) in (int, float) and got == default
+
+
+def _same_nest(got, nest, default):
+    """`got` is the nest: type-strict at non-default entries; at a default entry the entry itself or the
+    default value (the tree does not record how the nest spelled its default)."""
+    if isinstance(nest, list):
+        return type(got) is list and len(got) == len(nest) and all(_same_nest(g, e, default) for g, e in zip(got, nest))
+    if nest != default:
+        return _same(got, nest)
+    return _same(got, nest) or _same(got, default)
+
+
 def _same(a, b):
     """Type-strict structural equality (1 != 1.0, a box is not its value, list != tuple)."""
     if type(a) is not type(b):
@@ -406,6 +490,12 @@ def _run_nest(case, mon):
         mon.count("all_default_nests")
     else:
         mon.nontrivial()
+    alt = _alt_typed_defaults(nest, default)
+    if alt:
+        mon.count("mixed_type_default_nests")
+        mon.count("mixed_type_default_entries", len(alt))
+        if all_default:
+            mon.count("mixed_type_all_default_nests")
     ids = gen.rank_ids_for(len(dims))
     builders = [
         ("Fiber.fromUncompressed", lambda: Fiber.fromUncompressed(_copy(nest), default=default), None),
@@ -413,6 +503,9 @@ def _run_nest(case, mon):
         ("Tensor.fromUncompressed[shape]", lambda: Tensor.fromUncompressed(rank_ids=ids, root=_copy(nest), shape=list(dims),
                                                                            default=default), True),
     ]
+    if case.get("fiber_only"):
+        builders = builders[:1]
+        mon.count("float_zero_default_fiber_only")
     for op, build, _ in builders:
         ok, obj = _call(mon, op, build)
         if not ok:
@@ -455,17 +548,22 @@ def _run_nest(case, mon):
         ok, un = _call(mon, "uncompress", lambda: root.uncompress(shape=list(dims)), qual)
         mon.count("uncompress_calls")
         if ok:
-            mon.check(_same(un, nest), "uncompress:nest" + qual,
+            mon.check(_same_nest(un, nest, default), "uncompress:nest" + _rt(un, nest, default) + qual,
                       f"{op}({nest}, default={default!r}).uncompress(shape={dims}) returned {un!r}")
         if is_tensor or not all_default or len(dims) == 1:
             ok, un = _call(mon, "uncompress", lambda: root.uncompress(), qual)
             mon.count("uncompress_calls")
             if ok:
-                mon.check(_same(un, nest), "uncompress[noshape]:nest" + qual,
+                mon.check(_same_nest(un, nest, default), "uncompress[noshape]:nest" + _rt(un, nest, default) + qual,
                           f"{op}({nest}, default={default!r}).uncompress() returned {un!r}")
         mon.check(_tree_content(root, default) == (got, explicit, empties), "uncompress:changed-tree",
                   f"uncompress() changed the stored tree built from {nest}")
-    mon.state(("nest", dims, sorted((list(k), v[0], v[1]) for k, v in want.items()), repr(default)))
+    mon.state(("nest", dims, sorted((list(k), v[0], v[1]) for k, v in want.items()), repr(default),
+               sorted(list(k) for k in alt)))
+
+
+def _rt(un, nest, default):
+    return ":default-retyped" if _retyped_only(un, nest, default) else ""
 
 
 def _copy(nest):
